@@ -4,6 +4,7 @@ import TxVerif.Tie.Layout
 import TxVerif.Props.C01Engine
 import TxVerif.Props.C01EngineDfn
 import TxVerif.Tie.Fixes
+import TxVerif.Props.C14Crash
 open TxVerif
 #print axioms safe_step
 #print axioms safe_run
@@ -66,3 +67,9 @@ open TxVerif
 #print axioms Tie.fix_rollbackChanges
 #print axioms Tie.fix_syncNewMeta
 #print axioms Tie.fix_restoreMeta
+#print axioms life_trace_accepted
+#print axioms life_trace_accepted_ofFile
+#print axioms life_crash_atomic
+#print axioms life_crash_reads
+#print axioms life_crash_end
+#print axioms resize_crash_atomic
